@@ -1,6 +1,7 @@
 SPECIFICATION TraceSpec
 CONSTANTS
-  C0KiB = 131072
-  C1KiB = 4
+  C0KiB = 8192
+  C0ContainerKiB = 49152
+  C1KiB = 1
 POSTCONDITION TraceAccepted
 CHECK_DEADLOCK FALSE
